@@ -18,7 +18,7 @@ from pyvc.flow import dotted, ground_obligation
 
 from contracts.c03_flow import iteration_paths, MANY
 from contracts.c14_inline import line_of as LN, inlined as inline_helpers
-from contracts.c14_flow import parent_map, ancestors, reaching, pos, bindings_of, method_calls
+from contracts.c14_flow import parent_map, ancestors, reaching, pos, bindings_of, method_calls, enclosing_stmt
 
 EX = "sharepoint2text/parsing/extractors/"
 
